@@ -142,6 +142,7 @@ type Factory struct {
 	EdgeP      float64          // probability that a valid block sits exactly on a limit (catalogue mode)
 	Catalogue  bool             // flawed blocks violate a rule drawn from the catalogue of their stage (C01); otherwise one fixed rule per stage
 	RuleName   []string         // per block: the catalogue entry used
+	HeaderMode bool             // headers are delivered first in this run: header-visible sanity rules are not drawn
 	Pre        []*btcutil.Block // real blocks between the real genesis and abstract block 0 (catalogue mode: they provide mature coins)
 	BaseHeight int32
 }
